@@ -91,4 +91,15 @@ CHECKS = {
                 "must be served within 60 simulated seconds; listeners must still be bound and no main() may have returned. non-trivial = canary passed before the faults; distinct = (fault multiset, cell, poll order).",
         "real": REAL_SYSTEM, "stub": STUB_SYSTEM + ["attacker connections (harness)"], "assumptions": ASSUME_SYSTEM + ["UDP faults are covered by the UDP checks"],
     },
+    "C02": {
+        "level": "exploration",
+        "parts": [{"gen": "C02", "quick": 4200, "thorough": 84000}],
+        "rule": "one run = real client (and, for multi-user Shadowsocks 2022, a second real client under another user key) + real server; the configuration cell cycles over the UDP-capable README rows "
+                "(Shadowsocks over udp x 7 ciphers x with/without users, VMess over tcp/tls/ws/wss, Trojan over tls/wss); 1-4 local applications send uniquely numbered SOCKS5-UDP datagrams (sizes 0-8, small, 1472/1473, "
+                "multi-KiB, largest that fits and one above) to 1-4 scripted targets addressed by IPv4 or by name, which answer 0-2 times; idle gaps of 2 s ... 620 s jump the clock past the 300 s / 600 s TTLs; "
+                "35% of Shadowsocks runs put loss, duplication and reordering on the client<->server datagram link. Oracle: clean links - every datagram reaches its target exactly once and unmodified, every reply reaches exactly "
+                "the application that owns the binding, as one datagram labelled with the target; lossy links - whole-or-nothing and at most once (legacy ciphers: at most as often as the network copied); "
+                "never to another application, target or client; UDP sockets still bound afterwards. non-trivial = at least one datagram reached a target; distinct = (plan, poll order).",
+        "real": REAL_SYSTEM, "stub": STUB_SYSTEM, "assumptions": ASSUME_SYSTEM + ["an over-size datagram may be dropped whole", "VMess/Trojan replies may be labelled with the requested name instead of the literal address (their wire formats do not carry the source)"],
+    },
 }
